@@ -50,6 +50,7 @@ func (c *Combo) ValidateWithContext(ctx context.Context) error {
 			validation.Required,
 			r.InCategories(),
 		),
+		validation.Field(&c.Country),
 		validation.Field(&c.Rate,
 			r.InCategoryRates(c.Category),
 		),
